@@ -57,6 +57,18 @@ def gen_inputs(ctx):
                     found += 1
                     break
     ctx.notes["bip85_path_keys_with_leading_zero_found"] = found
+    # two DIFFERENT masters with the SAME 4-byte fingerprint (cd9258b3, a birthday pair of 16-byte seeds), asked the same
+    # question one after the other in one process: whatever is remembered between calls must be remembered per KEY,
+    # not per short identifier
+    twins = []
+    for sd in ("7bee9dfd28a669f86d855cf2c6543794", "3eb5458358ca365bb3f4fb41f8c65947"):
+        rn = W.master(R.Table(), bytes.fromhex(sd), "main")
+        twins.append(master_node(int.from_bytes(rn.k, "big"), rn.c))
+    assert R.hash160(R.pubkey(int.from_bytes(bytes(twins[0]["k"]), "big")))[:4] == R.hash160(R.pubkey(int.from_bytes(bytes(twins[1]["k"]), "big")))[:4]
+    for a_, b_ in ((0, 1), (1, 0)):
+        for app, p_ in (("mnemonic", 12), ("mnemonic", 24), ("wif", 0), ("xprv", 0), ("hex", 32), ("pwd", 21)):
+            out.append(("Bip85", {"master": twins[b_], "warm": [twins[a_]], "app": app, "p": p_, "ix": ix(0)},
+                        ("same-fingerprint-masters", app)))
     m = masters[-1]
     # out-of-range parameters on both sides of every bound
     for wc in list(range(0, 31)):
